@@ -124,12 +124,12 @@ def main(tier):
                     tasks.append({'L': L, 'i': i, 'j': j, 'slo': lo, 'shi': hi})
     # negative scales around round thresholds a "do not materialise that many zeros" shortcut might use: the two
     # representations straddle the threshold (i = 0, j = 2..3, base scale within +-3 of it)
-    for T0 in (64, 100, 128, 256, 512, 1000, 1024, 2048, 4096) + ((10000, 65536) if tier == 'thorough' else ()):
+    for T0 in (16, 24, 32, 48, 64, 100, 128, 256, 512, 1000, 1024, 2048, 4096) + ((10000, 65536) if tier == 'thorough' else ()):
         for j in (2, 3):
             tasks.append({'L': 1, 'i': 0, 'j': j, 'slo': -T0 - 3 - j, 'shi': -T0 + 3})
             tasks.append({'L': 2, 'i': 0, 'j': j, 'slo': -T0 - 3 - j, 'shi': -T0 + 3, 'zero': False})
     rep.required_labels = {'zero', 'nonzero'}
-    rep.bounds = {'significant_digits_L': '1..%d (all integers of each length, symbolic)' % D, 'extra_trailing_zeros_i,j': '0..%d, plus (i = 0, j in 19..21 and 38..40 | i in 0..1, j in 15..44) for short significant parts (word-count boundaries)' % T, 'base scale': '-%d..%d symbolic, plus windows of +-3 around -64, -100, -128, -256, -512, -1000, -1024, -2048, -4096 (thorough: -10000, -65536)' % (SS, SS), 'sign': 'symbolic'}
+    rep.bounds = {'significant_digits_L': '1..%d (all integers of each length, symbolic)' % D, 'extra_trailing_zeros_i,j': '0..%d, plus (i = 0, j in 19..21 and 38..40 | i in 0..1, j in 15..44) for short significant parts (word-count boundaries)' % T, 'base scale': '-%d..%d symbolic, plus windows of +-3 around -16, -24, -32, -48, -64, -100, -128, -256, -512, -1000, -1024, -2048, -4096 (thorough: -10000, -65536)' % (SS, SS), 'sign': 'symbolic'}
     rep.assumptions = ['String::hash feeds the UTF-8 bytes followed by 0xff to the Hasher (std contract); any Hasher is a function of that byte stream',
                        'BigInt::to_str_radix renders sign and decimal digits (num-bigint contract)']
     rep.outside = ['|scale| beyond the bound (the hash materialises |scale| zeros)', 'more than D significant digits']
